@@ -130,6 +130,9 @@ def plan(prop, tier):
                  sc([G, G, G, "clean", G, "clean"], D=2, P=2, works=(1,), ties=True),
                  sc(["legacy", G, G, "clean", G, "clean"], D=2, P=1),
                  sc([G, G, G, "clean", "clean", G, "clean", "clean"], D=1, P=1),
+                 # a Clean that prunes what was in memory when the repository was loaded
+                 sc([G, G, "save", "load", G, G, "clean"], D=1, P=1), sc([G, G, G, "save", "load", G, "clean", G, "clean"], D=2, P=1, S=(1, 7)),
+                 g(D=1, P=1, ops=maint_ops, n=num // 2),
                  sc([G, G, "clean", G, "clean"], N=3, D=3, P=2, S=(5000,), flags=["-realclean"], auto=2)]
     elif prop == "C11":
         exh = [("maint", 4, 1, 2, 1), ("mark", 3, 3, 2, 1)]
